@@ -22,6 +22,7 @@ type TypeConverter struct {
 	imports      map[string]string // package path -> local name
 	usedNames    map[string]string // local name -> package path (for collision detection)
 	nameCounters map[string]int    // base name -> counter for generating unique names
+	kessokuName  string            // the name the output imports the kessoku package under
 }
 
 // NewTypeConverter creates a new TypeConverter for the given package.
@@ -40,7 +41,12 @@ func NewTypeConverter(currentPkg *types.Package) *TypeConverter {
 			tc.usedNames[name] = packageScopeName
 		}
 	}
-	tc.usedNames[kessokuImportName] = kessokuImportPath
+	// ... unless the package itself declares a kessoku: then the import has to step aside.
+	tc.kessokuName = kessokuImportName
+	for n := 1; tc.usedNames[tc.kessokuName] != ""; n++ {
+		tc.kessokuName = fmt.Sprintf("%s_%d", kessokuImportName, n)
+	}
+	tc.usedNames[tc.kessokuName] = kessokuImportPath
 
 	return tc
 }
